@@ -2,6 +2,7 @@ package main
 
 import (
 	"fmt"
+	"net/http"
 	"net/url"
 	"os"
 	"strconv"
@@ -161,6 +162,34 @@ func showEffective(o mercure.VerifOptions, pubAlg, subAlg string) string {
 }
 
 // probeAlg finds, by sending tokens, which (key, alg) the hub really verifies with for a role.
+// crossRoleAccepted: the first algorithm under which the hub derives the token's own identity (payload "cross") from a
+// token signed with key k, on the endpoint of the given role; "" when none. Uses the hub's own authorize (white-box
+// accessor), so "anonymous because no key is configured" is not mistaken for acceptance.
+func crossRoleAccepted(hub *mercure.Hub, publisher bool, class string, k *jws.Key) string {
+	for _, alg := range []string{"HS256", "HS384", "HS512", "RS256", "RS384", "RS512", "ES256", "EdDSA"} {
+		fam := alg[:2]
+		if !(fam == "HS" || (fam == "RS" && class == "rsa") || (fam == "ES" && class == "ec") || (fam == "Ed" && class == "ed")) {
+			continue
+		}
+		var secret []byte
+		if fam == "HS" {
+			secret = k.ConfigKey()
+		}
+		tok := jws.MintAlg(alg, k, secret, `{"mercure":{"publish":["*"],"subscribe":["*"],"payload":"cross"}}`)
+		method := http.MethodGet
+		if publisher {
+			method = http.MethodPost
+		}
+		req, _ := http.NewRequest(method, "http://hub.test"+hubURL, nil)
+		req.Header.Set("Authorization", "Bearer "+tok)
+		if who := mercure.VerifAuthorize(hub, req, publisher); strings.HasPrefix(who, "ok") {
+			return alg
+		}
+	}
+
+	return ""
+}
+
 func probeAlg(hub *mercure.Hub, publisher bool, cands map[string]*jws.Key) string {
 	f := &fixture{hub: hub, cookie: "mercureAuthorization"}
 	var accepted []string
@@ -338,6 +367,34 @@ func runLegacyCase(c *h.Ctx, r *h.Report, cs legacyCase) {
 					What:   fmt.Sprintf("legacy options %s configure no subscriber key, yet the hub verifies subscriber tokens (key function present: %v; a subscriber presenting an unverifiable token is answered %d instead of being treated as anonymous)", line, o.HasSubscriberKey, garbage),
 					Replay: rp})
 			}
+		}
+		// C03 — the two roles' keys are not interchangeable: a token that only verifies with a key configured for the
+		// other role grants nothing (it is not even "verified": the identity the hub derives is never that token's)
+		effPub, effSub := cs.Pub.Class, cs.Sub.Class
+		if effPub == "absent" {
+			effPub = cs.Jwt.Class
+		}
+		if effSub == "absent" {
+			effSub = cs.Jwt.Class
+		}
+		if effPub != effSub {
+			for _, probe := range []struct {
+				class     string
+				publisher bool
+			}{{effPub, false}, {effSub, true}} {
+				if probe.class == "absent" {
+					continue
+				}
+				_, k := cfgKey(probe.class)
+				if alg := crossRoleAccepted(hub, probe.publisher, probe.class, k); alg != "" {
+					role := map[bool]string{true: "publisher", false: "subscriber"}[probe.publisher]
+					for _, key := range []string{"C03", "C19"} {
+						r.Violate(h.Violation{Key: key + ":token-verified-with-the-other-role's-key",
+							What: fmt.Sprintf("legacy options %s: a %s token signed (%s) with the key configured only for the other role (%s) is verified and its claims are used", line, role, alg, probe.class), Replay: rp})
+					}
+				}
+			}
+			r.Count("roles with different keys: cross-role tokens probed")
 		}
 		if cs.HBms != nil && *cs.HBms == 0 && o.Heartbeat != 0 {
 			r.Violate(h.Violation{Key: "C19:heartbeat-zero-not-applied",
